@@ -65,7 +65,8 @@ def volWitness : Vol Int :=
     net := (List.range 24).map (fun i => [(i : Int), 0, 0, 1]) }
 
 /-- F-14a: the PINNED vmesh reader (`for i in range(dim_w - 1)`) returns 18 of the 24 exported control
-    points - the last w-layer is lost while the sizes still say 2 x 3 x 4. -/
+    points - the last w-layer is lost while the sizes still say 2 x 3 x 4.
+    (Closed witness check: a statement about this one concrete input, decided by evaluation.) -/
 theorem vmesh_pinned_refutes_roundtrip :
     (vmeshReadPinned (vmeshWrite volWitness)).map (fun v => (v.net.length, v.sizeU * v.sizeV * v.sizeW)) = some (18, 24) := by
   decide +kernel
@@ -101,10 +102,12 @@ theorem container_file_suffixes {α : Type} (l : List α) :
 
 /-! ## control point text files -/
 
-/-- txt (1-D): one stored control point per line; reading returns the stored points -/
+/-- txt (1-D): one stored control point per line; reading returns the stored points
+    (Token-level and trivial: numbers are tokens, separators are not modelled, so this is `allSome (map some) = some`; the substance of the txt/csv formats is in the correspondence check.) -/
 theorem txt_export_import (net : List (List K)) : txtRead (txtWrite net) = some net := txt_roundtrip net
 
-/-- csv: header line, then as txt -/
+/-- csv: header line, then as txt
+    (Token-level and trivial, as for txt.) -/
 theorem csv_export_import (net : List (List K)) : csvRead (csvWrite net) = some net := csv_roundtrip net
 
 /-- txt (2-D): `size_u` lines of `size_v` points; reading returns the net in the library's order and both sizes,
@@ -124,15 +127,18 @@ def file23 : File2 Int :=
   (List.range 2).map (fun u => (List.range 3).map (fun v => [Tok.num (10 * (u : Int) + v), Tok.num 0, Tok.num 0, Tok.num 1]))
 
 /-- F-14b: the PINNED `flip_ctrlpts2d_file` raises on the non-square 2 x 3 file (it indexes the flipped `[v][u]`
-    array with the unflipped sizes) ... -/
+    array with the unflipped sizes) ...
+    (Closed witness check: a statement about this one concrete input, decided by evaluation.) -/
 theorem flip2d_pinned_refutes : flip2dFilePinned file23 = none := by decide +kernel
 
 /-- ... and the pinned saver (separator test on `size_u`) breaks the lines of a non-square file even without a flip:
-    the 2 x 3 file comes out as lines of 2, 3 and 1 points. -/
+    the 2 x 3 file comes out as lines of 2, 3 and 1 points.
+    (Closed witness check: a statement about this one concrete input, decided by evaluation.) -/
 theorem save2d_pinned_refutes :
     (weight2dFilePinned file23).map (fun f => f.map List.length) = some [2, 3, 1] := by decide +kernel
 
-/-- the repaired helper writes the transposed file: 3 lines of 2 points, entry `[v][u]` = input `[u][v]` -/
+/-- the repaired helper writes the transposed file: 3 lines of 2 points, entry `[v][u]` = input `[u][v]`
+    (Closed witness check: a statement about this one concrete input, decided by evaluation.) -/
 theorem flip2d_repaired_on_witness :
     flip2dFile file23 = some ((List.range 3).map (fun v => (List.range 2).map (fun u => [10 * (u : Int) + v, 0, 0, 1]))) := by
   decide +kernel
@@ -183,7 +189,8 @@ theorem json_export_import (ov : Option K) (x : Shapes K) (h : Shapes.Ok x) :
     importShapes ov (exportShapes x) = x.asRational ov :=
   dict_shapes ov x h
 
-/-- the record carries the element count and one record per element -/
+/-- the record carries the element count and one record per element
+    (Unfolding lemma (the exporter writes `len(data)` next to `data`).) -/
 theorem json_count (x : Shapes K) :
     (match exportShapes x with
       | .curve n d => n = d.length
@@ -380,9 +387,12 @@ def srfPlain : Srf ℚ :=
     knotsU := [2, 2, 5, 5], knotsV := [-1, -1, -1, 1, 3, 3, 3],
     net := [[0, 0, 0], [0, 1, 0], [0, 2, 0], [0, 3, 1], [1, 0, 0], [1, 1, 1/3], [1, 2, 2/3], [1, 3, 5]] }
 
+/-- non-vacuity witness: the hypothesis bundle `EvalOk` holds for the concrete non-rational surface above
+    (closed statement, decided by evaluation) -/
 theorem srfPlain_evalOk : srfPlain.EvalOk 3 :=
   ⟨rfl, by decide +kernel, by decide +kernel, by decide +kernel, by decide +kernel, by unfold Geomdl.NetOk; decide⟩
 
+/-- non-vacuity witness: `EvalOk` holds for the concrete rational surface above (closed statement, decided by evaluation) -/
 theorem srfWitness_evalOk : srfWitness.EvalOk 4 :=
   ⟨rfl, by decide +kernel, by decide +kernel, by decide +kernel, by decide +kernel, by unfold Geomdl.NetOk; decide⟩
 
